@@ -66,6 +66,30 @@ Definition cstmerge (cst other : value) : value :=
     end
   end.
 
+(* util.abctools.left_assoc / right_assoc over the flat result [e1; op; e2; op; e3 ...] of a positive join: plain (open)
+   lists [op; left; right]; one element stands for itself; nothing gives ().  A trailing operator without its right
+   operand cannot come out of a join (the code would raise StopIteration); the model stops there. *)
+Fixpoint left_assoc_go (acc : value) (l : list value) : value :=
+  match l with
+  | op :: e :: l' => left_assoc_go (VList false [op; acc; e]) l'
+  | _ => acc
+  end.
+Definition left_assoc (l : list value) : value :=
+  match l with [] => VTuple [] | e :: l' => left_assoc_go e l' end.
+
+Fixpoint right_assoc_go (fuel : nat) (l : list value) : value :=
+  match fuel with
+  | O => VTuple []
+  | S fuel' =>
+    match l with
+    | [] => VTuple []
+    | [e] => e
+    | [e; _] => e
+    | e :: op :: l' => VList false [op; e; right_assoc_go fuel' l']
+    end
+  end.
+Definition right_assoc (l : list value) : value := right_assoc_go (S (length l)) l.
+
 (* ---- AST: an association list; dict semantics (update in place, append new keys) ---- *)
 Definition ast := list (str * value).
 
